@@ -1,14 +1,194 @@
 (* C10  Authorization is enforced: denied layers stay dark, limited areas are clipped.
-   Property theorems only; proofs live in theories/Auth_proofs.v. *)
+   Property theorems only; proofs live in theories/Auth_proofs.v.
+   Reading guide: a callback result is `cbres` (kind, dictionary name -> permissions, global limited_to);
+   `permitted f r n` = the callback allows feature f (map / featureinfo / tile) for layer n;
+   geometries are identifiers, the geometric predicates (point in geometry, tile bbox contained / intersected,
+   pixel outside the rasterised mask) are arbitrary inputs - the theorems hold for every geometry. *)
 From Coq Require Import ZArith List Bool Arith.
 Import ListNotations.
 From MP Require Import Auth Auth_proofs.
 Local Open Scope Z_scope.
 
-(* A tile whose bbox neither lies in nor intersects the geometry the layer is limited to is answered with the
+(* WMS GetMap, any layer tree with groups, any LAYERS list, any callback result (a dictionary: unique keys):
+   every source whose get_map is called (= every upstream request) belongs to a selected layer that the
+   callback permits for 'map'.  A denied layer is never rendered and never requested upstream. *)
+Theorem denied_layer_not_rendered :
+  forall tree req r s,
+    NoDup (map fst (r_layers r)) ->
+    In s (wms_log (wms_map tree req (Some r))) ->
+    exists n srcs, In (n, srcs) (select_map (server_layers tree) req []) /\ In s srcs /\
+                   permitted Ft_map r n = true.
+Proof. exact wms_map_log_permitted. Qed.
+
+(* every entry of the render list: its layer is permitted, and for a 'partial' result the entry carries exactly
+   the limited_to of that layer's dictionary entry (limited => LimitedLayer) *)
+Theorem render_entry_permitted_and_limited :
+  forall tree req r rl cov n lim s,
+    NoDup (map fst (r_layers r)) ->
+    wms_map tree req (Some r) = W_ok rl cov -> In (n, lim, s) rl ->
+    permitted Ft_map r n = true /\
+    (exists srcs, In (n, srcs) (select_map (server_layers tree) req []) /\ In s srcs) /\
+    (r_kind r = A_partial -> exists p, assoc n (r_layers r) = Some p /\ lim = p_lim p).
+Proof. exact wms_map_entry. Qed.
+
+(* 'none', 'unauthenticated' or an unknown value of 'authorized': nothing is rendered at all *)
+Theorem unauthorized_request_renders_nothing :
+  forall tree req r,
+    r_kind r <> A_full -> r_kind r <> A_partial -> wms_log (wms_map tree req (Some r)) = [].
+Proof. exact wms_map_none_no_log. Qed.
+
+(* a layer that is part of the answer, was named in LAYERS and is not permitted: the whole request is 403 *)
+Theorem explicit_denied_is_403 :
+  forall tree req r n srcs,
+    NoDup (map fst (r_layers r)) ->
+    all_known (server_layers tree) req = true ->
+    r_kind r <> A_full -> r_kind r <> A_unauth ->
+    In (n, srcs) (select_map (server_layers tree) req []) ->
+    In n req ->
+    permitted Ft_map r n = false ->
+    wms_map tree req (Some r) = W_403.
+Proof. exact wms_map_explicit_403. Qed.
+
+(* when every denied layer of the answer is implicit (member of a requested group), the request succeeds,
+   the denied layers are dropped and the global limited_to becomes the clip coverage of the merger *)
+Theorem implicit_denied_is_dropped :
+  forall tree req r,
+    NoDup (map fst (r_layers r)) ->
+    all_known (server_layers tree) req = true ->
+    r_kind r <> A_full -> r_kind r <> A_unauth ->
+    (forall n srcs, In (n, srcs) (select_map (server_layers tree) req []) ->
+                    permitted Ft_map r n = false -> ~ In n req) ->
+    exists rl, wms_map tree req (Some r) = W_ok rl (r_lim r) /\
+               forall n, In n (map (fun e : rentry => fst (fst e)) rl) -> permitted Ft_map r n = true.
+Proof. exact wms_map_implicit_dropped. Qed.
+
+Theorem unauthenticated_is_401 :
+  forall tree req r,
+    all_known (server_layers tree) req = true -> r_kind r = A_unauth -> wms_map tree req (Some r) = W_401.
+Proof. exact wms_map_unauth_401. Qed.
+
+(* Global clip, every path of LayerMerger.merge (no layer, the single-layer shortcut - which a coverage
+   disables -, the loop): whatever the layer images, their modes, opacities and masks are, a pixel outside the
+   mask of the global coverage is exactly the pixel create_image() starts with: bgcolor, alpha 0 for
+   transparent requests. *)
+Theorem clip_outside_transparent :
+  forall o ms cols k col,
+    bg_ok o -> nth_error cols k = Some (col, true) ->
+    nth_error (snd (merge_image o ms cols true)) k = Some (create_px o).
+Proof. exact merge_image_global_outside. Qed.
+
+(* Per-layer clip (LimitedLayer): outside its mask a clipped layer leaves the pixel under it untouched, wherever
+   it sits in the stack - provided the layer is not merged on the Image.blend path (request not transparent and
+   layer opacity < 1).  _partial: that path is excluded, see layer_clip_blend_path_refuted. *)
+Theorem layer_clip_outside_untouched_partial :
+  forall composite m d s,
+    lm_clip m = true ->
+    (composite = true \/ op_lt1 (layer_opacity m) = false) ->
+    (composite = false -> px_ok d /\ px_a d = 255) ->
+    step_px composite m d s true = d.
+Proof. exact step_px_clip_outside. Qed.
+
+(* the excluded path does violate the property: a layer with opacity 1/2 clipped away over a black background
+   leaves grey (finding: merge, layer clip, blend path) *)
+Theorem layer_clip_blend_path_refuted :
+  exists m d s, lm_clip m = true /\ px_ok d /\ px_a d = 255 /\ step_px false m d s true <> d.
+Proof. exact step_px_clip_blend_refuted. Qed.
+
+(* hence: a pixel outside the geometry of every layer of the answer (all limited) is the background *)
+Theorem all_layers_clipped_outside_is_background_partial :
+  forall o ms col,
+    bg_ok o ->
+    Forall (fun m => lm_clip m = true /\
+                     (imode_eqb (create_mode o) M_RGBA = true \/ op_lt1 (layer_opacity m) = false)) ms ->
+    Forall (fun sb : px * bool => snd sb = true) col ->
+    merge_px o ms col None = create_px o.
+Proof. exact merge_px_all_outside. Qed.
+
+(* pixels inside keep their content: an opaque pixel of a single limited layer without opacity, inside the layer
+   mask and inside the global mask (or without one), comes out unchanged *)
+Theorem clip_inside_content_kept :
+  forall o m s gout,
+    bg_ok o -> px_ok s -> px_a s = 255 -> layer_opacity m = None ->
+    (gout = None \/ gout = Some false) ->
+    (lm_clip m = true \/ lm_mode m = M_RGBA) ->
+    merge_px o [m] [(s, false)] gout = s.
+Proof. exact merge_px_inside_kept. Qed.
+
+(* TMS / KML / WMTS tiles.  A denied tile layer: 403, the tile manager is not asked. *)
+Theorem tile_denied_is_403 :
+  forall n r cont inter,
+    r_kind r <> A_unauth -> permitted Ft_tile r n = false ->
+    tile_render n (Some r) cont inter = TO_403 /\ tile_loads (tile_render n (Some r) cont inter) = false.
+Proof. exact tile_denied_403. Qed.
+
+(* a served tile is a permitted one *)
+Theorem tile_served_is_permitted :
+  forall key n r lim, authorize_tile key n (Some r) = T_ok lim -> permitted key r n = true.
+Proof. exact authorize_tile_ok_permitted. Qed.
+
+(* A tile whose bbox neither lies in nor intersects the geometry the request is limited to is answered with the
    empty tile and the tile manager is never asked (no upstream request). *)
 Theorem tile_outside_empty :
   forall lname cb cont inter g,
     authorize_tile Ft_tile lname cb = T_ok (Some g) -> cont g = false -> inter g = false ->
     tile_render lname cb cont inter = TO_empty /\ tile_loads (tile_render lname cb cont inter) = false.
 Proof. exact tile_outside_empty_l. Qed.
+
+(* A tile that intersects the geometry without lying in it is masked with that geometry: pixels outside the
+   mask are (255,255,255,0), opaque pixels inside keep their value. *)
+Theorem tile_partial_masked :
+  forall lname cb cont inter g,
+    authorize_tile Ft_tile lname cb = T_ok (Some g) -> cont g = false -> inter g = true ->
+    tile_render lname cb cont inter = TO_masked g.
+Proof. exact tile_partial_masked_l. Qed.
+
+Theorem tile_masked_pixel_outside :
+  forall mode s, tile_masked_px mode s true = (255, 255, 255, 0).
+Proof. exact tile_masked_outside. Qed.
+
+Theorem tile_masked_pixel_inside :
+  forall mode s, px_ok s -> px_a s = 255 -> tile_masked_px mode s false = s.
+Proof. exact tile_masked_inside. Qed.
+
+(* Which geometry: the global limited_to is applied when the layer entry has none of its own.
+   _partial: with both, the tile services use only the layer's (tile_global_limit_ignored_refuted). *)
+Theorem tile_global_limit_honoured_partial :
+  forall key n r lim g,
+    authorize_tile key n (Some r) = T_ok lim -> r_kind r = A_partial -> r_lim r = Some g ->
+    (forall p, assoc n (r_layers r) = Some p -> p_lim p = None) ->
+    lim = Some g.
+Proof. exact tile_global_limit_partial. Qed.
+
+(* finding: a tile completely outside the global geometry (5) is served in full because the layer entry has its
+   own limited_to (7) *)
+Theorem tile_global_limit_ignored_refuted :
+  exists r n g g' cont inter, g <> g' /\ r_kind r = A_partial /\ r_lim r = Some g /\
+    authorize_tile Ft_tile n (Some r) = T_ok (Some g') /\
+    cont g = false /\ inter g = false /\
+    tile_render n (Some r) cont inter = TO_full.
+Proof. exact tile_global_limit_refuted. Qed.
+
+(* Feature info (WMS): every info source that is queried belongs to a layer permitted for 'featureinfo'; if that
+   layer is limited to g the query point lies in g; if the request is limited globally the point lies in the
+   global geometry.  Contrapositive: a point outside => no upstream call, empty answer. *)
+Theorem featureinfo_gate :
+  forall tree ql ls r pt_in rl cov n lim s,
+    NoDup (map fst (r_layers r)) ->
+    wms_featureinfo tree ql ls (Some r) pt_in = W_ok rl cov -> In (n, lim, s) rl ->
+    permitted Ft_fi r n = true /\
+    (forall g, lim = Some g -> pt_in g = true) /\
+    (r_kind r <> A_full -> forall g, r_lim r = Some g -> pt_in g = true).
+Proof. exact wms_fi_entry. Qed.
+
+(* Feature info (WMTS) *)
+Theorem wmts_featureinfo_gate :
+  forall n infos cb pt_in g,
+    authorize_tile Ft_fi n cb = T_ok (Some g) -> pt_in g = false -> infos <> [] ->
+    wmts_featureinfo n infos cb pt_in = FI_ok [].
+Proof. exact wmts_fi_gate. Qed.
+
+Theorem wmts_featureinfo_denied_is_403 :
+  forall n infos r pt_in,
+    r_kind r <> A_unauth -> permitted Ft_fi r n = false ->
+    wmts_featureinfo n infos (Some r) pt_in = FI_403.
+Proof. exact wmts_fi_denied. Qed.
